@@ -109,29 +109,29 @@ type c07Expect struct {
 }
 
 type c07Conn struct {
-	ss      *simSess
-	expect  []c07Expect
-	seen    int  // messages of ss.rx already matched
-	closed  bool // model: server must have closed it
+	ss       *simSess
+	expect   []c07Expect
+	seen     int  // messages of ss.rx already matched
+	closed   bool // model: server must have closed it
 	weClosed bool
 }
 
 type c07Model struct {
-	st        bgp.FSMState
-	adminDown bool
-	exists    bool
-	cur       *c07Conn
-	idleHold  time.Duration
-	idleUntil time.Duration // valid in Idle with admin up
-	holdAt    time.Duration // hold-timer deadline, 0 = none
-	kaNext    time.Duration // next keepalive, 0 = none
-	kaPeriod  time.Duration
-	hold      time.Duration // negotiated hold of the current/last session
-	ka        time.Duration
-	estCount  int
+	st          bgp.FSMState
+	adminDown   bool
+	exists      bool
+	cur         *c07Conn
+	idleHold    time.Duration
+	idleUntil   time.Duration // valid in Idle with admin up
+	holdAt      time.Duration // hold-timer deadline, 0 = none
+	kaNext      time.Duration // next keepalive, 0 = none
+	kaPeriod    time.Duration
+	hold        time.Duration // negotiated hold of the current/last session
+	ka          time.Duration
+	estCount    int
 	updAccepted int
-	pfxCt     bool            // shut down by the prefix limit: stays Idle until enabled
-	prefixes  map[int]bool    // distinct prefixes announced on the current session
+	pfxCt       bool         // shut down by the prefix limit: stays Idle until enabled
+	prefixes    map[int]bool // distinct prefixes announced on the current session
 }
 
 const c07LocalAS = 65000
